@@ -154,6 +154,24 @@ Proof. exact integrate_func_with_numpy_tree. Qed.
 Example C17_float_pairwise_is_the_generic_tree : F.pairwise = pairwise_g PrimFloat.add 0%float.
 Proof. reflexivity. Qed.
 
+(* The integrators are: the prologue (setup; no count at all -> ValueError) followed by the integration proper
+   with the rule the object holds -- the prologue is the part of integrate_func / integrate_data that the
+   translator re-emits from the source on every run (gen_prologue_func / gen_prologue_data = q_prologue); an
+   object that never received a count raises ValueError and is left as it was. *)
+Theorem C17_integrate_is_prologue_then_rule :
+  forall (T Arg Out : Type) (G : Z -> result T) (I : T -> Arg -> result Out) st npts a,
+  q_integrate G I st npts a =
+  match q_prologue G st npts with
+  | (st', Some e) => (st', Err e)
+  | (st', None) => match st_rule st' with Some r => (st', I r a) | None => (st', Err EType) end
+  end.
+Proof. intros T Arg Out. exact (@q_integrate_prologue T Arg Out). Qed.
+
+Theorem C17_no_count_raises_value_error :
+  forall (T Arg Out : Type) (G : Z -> result T) (I : T -> Arg -> result Out) a,
+  q_integrate G I q_none None a = (q_none, Err EValue).
+Proof. intros T Arg Out. exact (@no_count_raises T Arg Out). Qed.
+
 (* QGauss2 array shapes under numpy broadcasting.  Repaired _setup: for ALL nx, ny >= 1 the weight
    grid and the summed integrand have the mesh's shape (ny, nx).  Unchanged _setup (weight grids
    allocated (nx, ny)): right shapes iff nx = ny (nx, ny >= 2); QGauss2(3,4) cannot be
@@ -225,7 +243,7 @@ Proof. vm_compute. split; reflexivity. Qed.
 Theorem C17_dowhile_equals_while_when_entered : forall fuel n nf z z1 pp,
   PrimFloat.ltb F.EPS (F.absdiff z z1) = true ->
   F.newton_while fuel n nf z z1 pp = F.newton_do fuel n nf z.
-Proof. intros fuel n nf z z1 pp H. unfold F.newton_while. rewrite H. reflexivity. Qed.
+Proof. intros fuel n nf z z1 pp H. unfold F.newton_while, F.continue_newton. rewrite H. reflexivity. Qed.
 
 (* What the Newton pass computes, over the reals (RM.legendre_R / pp_R / newton_step_R mirror the C
    statements of lines 59-71 with exact arithmetic): the inner loop is Bonnet's recursion for the
@@ -338,6 +356,12 @@ Theorem C17_rule_checker_decides_rule_ok : forall a b xs ws refz refw,
   rule_check a b xs ws refz refw = true <->
   rule_ok (dR a) (dR b) (map dR xs) (map dR ws) (map dR refz) (map dR refw).
 Proof. exact rule_check_iff. Qed.
+
+(* ... and so is the history checker: for valid counts it accepts exactly the observation lists in which every call
+   returned what a fresh object with the call's effective count returns. *)
+Theorem C17_history_checker_decides_history_ok : forall ops cur os, counts_valid cur ops = true ->
+  (history_check cur ops os = true <-> history_ok cur ops os).
+Proof. exact history_check_iff. Qed.
 
 (* the two readings of the data integrator agree when the abscissae are the exactly mapped ones *)
 Theorem C17_data_ok_at_exact_abscissae : forall zs ws xv yv res,
